@@ -307,6 +307,20 @@ def formatSkip (cs : List Ch) : Nat :=
       | _ => 0
     else 0
 
+/-- the prefix of `cs` that is exactly `n` bytes long (`&input[..n]`); `none` when `n` is not a
+character boundary of `cs` -/
+def prefixAt (n : Nat) : List Ch → Option (List Ch)
+  | [] => if n = 0 then some [] else none
+  | c :: cs =>
+    if n = 0 then some []
+    else if c.len ≤ n then (prefixAt (n - c.len) cs).map (c :: ·) else none
+
+/-- the position after the given characters: a line feed starts a new line at column 0, any other
+character advances the column by its display width -/
+def posAfter (p : Pos) : List Ch → Pos
+  | [] => p
+  | c :: cs => posAfter (if c.cp = cpNL then ⟨p.line + 1, 0⟩ else ⟨p.line, p.col + c.width⟩) cs
+
 def consumeFormatOptions (p : Pos) (cs : List Ch) : Token × Move :=
   let skip := formatSkip cs
   match dropBytes skip cs with
@@ -314,7 +328,12 @@ def consumeFormatOptions (p : Pos) (cs : List Ch) : Token × Move :=
   | some rest =>
     match findRBrace rest with
     | none => (.error, .stay)
-    | some e => (.stringLiteral, advLine p (e + skip))
+    | some e =>
+      -- the options may contain line breaks and multi-byte characters: the position is tracked
+      -- per character of the consumed text
+      match prefixAt (e + skip) cs with
+      | some consumed => (.stringLiteral, .adv (e + skip) (posAfter p consumed))
+      | none => (.error, .stay)
 
 /-! ### consume_number -/
 
